@@ -31,6 +31,7 @@ func init() {
 			Trusted:     commonTrusted,
 		},
 		Mutants: []Mutant{
+			{Name: "int == float truncates the float (original defect)", File: "eval.go", Old: "\tif (isInt(kind) || isUint(kind)) && isFloat(v2.Kind()) {\n\t\t// a floating-point operand makes the comparison floating-point (2 == 2.5 is false)\n\t\treturn toFloat(v1) == v2.Float()\n\t}\n", New: "", Rule: "C04.kinds"},
 			{Name: "sign look-ahead forgets ')' (original defect, one token)", File: "lex.go", Old: "\t\t\titemRightParen != l.lastType &&\n\t\t\titemRightBrackets != l.lastType &&\n\t\t\titemNil != l.lastType &&\n\t\t\titemUnderscore != l.lastType &&\n\t\t\titemTrans != l.lastType {\n\t\t\tl.backup()\n\t\t\treturn lexNumber\n\t\t}\n\t\tl.emit(itemMinus)", New: "\t\t\titemRightBrackets != l.lastType &&\n\t\t\titemNil != l.lastType &&\n\t\t\titemUnderscore != l.lastType &&\n\t\t\titemTrans != l.lastType {\n\t\t\tl.backup()\n\t\t\treturn lexNumber\n\t\t}\n\t\tl.emit(itemMinus)", Rule: "C04.sign"},
 			{Name: "<= evaluated as < for unsigned operands", File: "eval.go", Old: "\t\t\t\tisTrue = left.Uint() <= toUint(right)", New: "\t\t\t\tisTrue = left.Uint() < toUint(right)", Rule: "C04.ops"},
 			{Name: "* and / swapped for floats", File: "eval.go", Old: "\t\t\tleft = reflect.ValueOf(left.Float() / toFloat(right))", New: "\t\t\tleft = reflect.ValueOf(left.Float() * toFloat(right))", Rule: "C04.ops"},
@@ -348,6 +349,40 @@ func c04ladder(c *an.Ctx) {
 			})
 		}
 		c.Check(okNot, "C04.ladder", "(*Template).unaryExpression/not", f.Pos(), "! applies to a comparison-level expression", "unary ! no longer parses a comparative expression as its operand")
+		// the operator nodes the parser builds are what the grammar says: each constructor of an operator node
+		// returns the node it builds and nothing else (a "simplified" tree — !!x as x, x+0 as x — changes the
+		// type of the result: a logical operator always yields true or false)
+		for _, ctor := range []string{"(*Template).newNotExpr", "(*Template).newLogicalExpr", "(*Template).newComparativeExpr", "(*Template).newNumericComparativeExpr", "(*Template).newAdditiveExpr", "(*Template).newMultiplicativeExpr", "(*Template).newTernaryExpr"} {
+			g := p.Fn(ctor)
+			if g == nil {
+				continue
+			}
+			ginfo := g.Info()
+			nRet, okCtor := 0, true
+			an.InspectOwn(g, func(n ast.Node) bool {
+				ret, isRet := n.(*ast.ReturnStmt)
+				if !isRet || len(ret.Results) != 1 {
+					return true
+				}
+				nRet++
+				fresh := false
+				for _, o := range valueOrigins(g, ret.Results[0], 0) {
+					if u, ok := an.Unparen(o).(*ast.UnaryExpr); ok && u.Op == token.AND {
+						if cl, ok := an.Unparen(u.X).(*ast.CompositeLit); ok && strings.HasSuffix(an.TypeName(ginfo.Types[cl].Type), "ExprNode") {
+							fresh = true
+							continue
+						}
+					}
+					fresh = false
+					break
+				}
+				if !fresh {
+					okCtor = false
+				}
+				return true
+			})
+			c.Check(okCtor && nRet > 0, "C04.ladder", ctor+"/builds-its-node", g.Pos(), "the constructor returns the operator node it builds", ctor+" can return something other than the operator node it builds: the expression tree no longer has the operator the source has, so the operator's typing (a logical operator yields true or false) is lost")
+		}
 		c.Check(okSign, "C04.ladder", "(*Template).unaryExpression/sign", f.Pos(), "unary + and - take a bare operand (bind tightest)", "unary +/- do not take a bare operand(): they no longer bind tighter than * / %")
 	}
 	// parentheses re-enter at the top
@@ -854,6 +889,7 @@ func c04ops(c *an.Ctx) {
 }
 
 func c04kinds(c *an.Ctx) {
+	c04equality(c)
 	p := c.P
 	type fam struct{ guard, method, conv string }
 	fams := []fam{{"isInt(kind)", "Int", "jet.toInt"}, {"isUint(kind)", "Uint", "jet.toUint"}, {"isFloat(kind)", "Float", "jet.toFloat"}}
